@@ -55,7 +55,7 @@ pub proof fn lemma_chain_next<C: ContentAddrStore>(s: UnsealedState<C>, n: Unsea
 // ---- batch application as seen by block application: batch_env / batch_core are DEFINED in lemmas/batch_def.rs (unit `batch`,
 // which proves apply_tx_batch_impl against them) and declared uninterpreted in lemmas/batch_opaque.rs for the units that only
 // pass them along (here only their frame consequences are used)
-pub open spec fn batch_pre<C: ContentAddrStore>(s: UnsealedState<C>, txx: Seq<Transaction>) -> bool { state_inv(s) && chain_ok(s) && hinv(s) && batch_env(s, txx) }
+pub open spec fn batch_pre<C: ContentAddrStore>(s: UnsealedState<C>, txx: Seq<Transaction>) -> bool { state_inv(s) && chain_ok(s) && hinv(s) && batch_env(s, txx) && (s.height.0 == 0 ==> seal_fallback_pre(s)) }
 pub open spec fn batch_result<C: ContentAddrStore>(s: UnsealedState<C>, txx: Seq<Transaction>, r: UnsealedState<C>) -> bool {
     batch_core(s, txx, r) && r.network == s.network && r.height == s.height && r.history == s.history && r.pools == s.pools
     && r.fee_multiplier == s.fee_multiplier && state_inv(r) && r.tips.0 <= u128::MAX - 0x1_0000_0000_0000_0000_0000_0000_0000u128
@@ -80,3 +80,11 @@ pub open spec fn same_views<C: ContentAddrStore>(a: UnsealedState<C>, b: Unseale
     && a.transactions@.dom() == b.transactions@.dom() && a.fee_pool == b.fee_pool && a.fee_multiplier == b.fee_multiplier && a.tips == b.tips
     && a.dosc_speed == b.dosc_speed && a.pools@ == b.pools@ && a.stakes@ == b.stakes@
 }
+
+/// what the genesis-only fallback of check_tx_validity (`this.clone().seal(None).header()`, taken when the history has no previous
+/// header, i.e. at height 0) needs of the state: the preconditions of sealing it without an action, and of reading the header
+pub open spec fn seal_fallback_pre<C: ContentAddrStore>(s: UnsealedState<C>) -> bool {
+    state_inv(s) && pools_ok(s.pools@) && builtins_if_present(s) && seal_env(s) && reward_fresh(s)
+    && (spec_tip(s.network, s.height, 950000) ==> tip909_env(spec_preseal(s))) && s.tips.0 <= u128::MAX - 0x1_0000_0000_0000_0000_0000_0000_0000u128 && chain_ok(s)
+}
+pub open spec fn prev_height<C: ContentAddrStore>(s: UnsealedState<C>) -> BlockHeight { BlockHeight(if s.height.0 == 0 { 0u64 } else { (s.height.0 - 1) as u64 }) }
